@@ -97,6 +97,23 @@ def step (why : Bool) (ps : Progs) (line : String) : Progs × String :=
         | some P, some bs => (ps, resStr why (fastRead P i bs) fun (_, n) => toString n)
         | _, _ => (ps, "bad-op")
       | none => (ps, "bad-op")
+    | ["HH", key, mode, hex1, hex2] =>
+      match splitKey key with
+      | some (u, i) => match ps.get u, VL.hexDecode hex1, VL.hexDecode hex2 with
+        | some P, some b1, some b2 =>
+          match P.struct? i with
+          | some sd =>
+            let stepR (m : Char) (cur : GoVal) (bs : Bytes) : FRes GoVal :=
+              if m == 'F' then (match fastReadInto P i cur bs with | .ok (v, _) => .ok v | .err => .err | .panic w => .panic w)
+              else (match stdReadInto P i cur bs with | some v => .ok v | none => .err)
+            let ms := mode.toList
+            match stepR (ms.getD 0 'F') (newX sd) b1 with
+            | .err => (ps, "err1")
+            | .panic w => (ps, panicStr why w)
+            | .ok o1 => (ps, resStr why (stepR (ms.getD 1 'F') o1 b2) fun v => showV P (.struct i) v)
+          | none => (ps, "bad-op")
+        | _, _, _ => (ps, "bad-op")
+      | none => (ps, "bad-op")
     | ["SK", t, hex] =>
       match t.toNat?, VL.hexDecode hex with
       | some t, some bs => (ps, resStr why (Gopkg.skip t bs) toString)
